@@ -362,6 +362,36 @@ def _prescripts_ok(t):
     return True
 
 
+def merge_cases():
+    """token sequences that one of the merging / re-reading heuristics of canonicalization takes for ONE thing (arc + sin, | |, digit
+    groups, primes, dots, letters of a function name, element symbols, d x, operator digraphs, a token and a blank) as the complete
+    child list of an element whose children have fixed roles (one sequence member per role) and of the wrappers that imply a row -
+    alone and after 'x +' / 'H +'.  A merge that is right in a row takes a child away from a fraction or a script here."""
+    from terms import mi, mn, mo, mtext, row, el, T
+    seqs = [("arc-sin", lambda: [mi("arc"), mi("sin")]), ("arc-cos-mtext", lambda: [mtext("arc\u00a0"), mi("cos")]), ("bars", lambda: [mo("|"), mo("|")]),
+            ("digits", lambda: [mn("1"), mn("2")]), ("decimal", lambda: [mn("1"), mo("."), mn("5")]), ("grouped", lambda: [mn("1"), mo(","), mn("234")]),
+            ("primes", lambda: [mo("\u2032"), mo("\u2032")]), ("apostrophes", lambda: [mo("'"), mo("'")]), ("dots", lambda: [mo("."), mo("."), mo(".")]), ("two-dots", lambda: [mo("."), mo(".")]),
+            ("minus-minus", lambda: [mo("-"), mo("-")]), ("colon-eq", lambda: [mo(":"), mo("=")]), ("lt-eq", lambda: [mo("<"), mo("=")]), ("minus-gt", lambda: [mo("-"), mo(">")]),
+            ("s-i-n", lambda: [mi("s"), mi("i"), mi("n")]), ("l-n", lambda: [mi("l"), mi("n")]), ("l-o-g", lambda: [mi("l"), mi("o"), mi("g")]),
+            ("H-2", lambda: [mi("H"), mn("2")]), ("N-a", lambda: [mi("N"), mi("a")]), ("C-l", lambda: [mi("C"), mi("l")]), ("d-x", lambda: [mi("d"), mi("x")]),
+            ("x-mspace", lambda: [mi("x"), T("mspace", width="1em")]), ("mspace-x", lambda: [T("mspace", width="1em"), mi("x")]), ("x-nbsp", lambda: [mi("x"), mtext("\u00a0")]),
+            ("f-apply", lambda: [mi("f"), mo("\u2061")]), ("2-times", lambda: [mn("2"), mo("\u2062")]), ("I-I", lambda: [mi("I"), mi("I")]), ("ellipses", lambda: [mo("\u2026"), mo("\u2026")]),
+            ("x-comma", lambda: [mi("x"), mo(",")]), ("minus-1", lambda: [mo("-"), mn("1")]), ("2-x", lambda: [mn("2"), mi("x")]), ("x-y-z", lambda: [mi("x"), mi("y"), mi("z")]),
+            ("sin-x", lambda: [mi("sin"), mi("x")]), ("lim-x", lambda: [mi("lim"), mi("x")]), ("1-st", lambda: [mn("1"), mtext("st")]), ("x-bang", lambda: [mi("x"), mo("!")])]
+    fixed = {2: ["mfrac", "msup", "msub", "mroot", "munder", "mover"], 3: ["msubsup", "munderover", "mmultiscripts"]}
+    wrappers = ["msqrt", "mstyle", "mpadded", "menclose", "mtd", "mrow"]
+    ctxs = [("alone", lambda e: e), ("x+", lambda e: row(mi("x"), mo("+"), e)), ("H+", lambda e: row(mi("H"), mo("+"), e)), ("+2", lambda e: row(e, mo("+"), mn("2")))]
+    out = []
+    for sn, sf in seqs:
+        for parent in fixed.get(len(sf()), []) + wrappers:
+            for cn, cf in ctxs:
+                inner = el(parent, *sf())
+                if parent == "mtd":
+                    inner = el("mtable", el("mtr", inner, el("mtd", mi("b"))))
+                out.append((f"merge:{sn}:{parent}:{cn}", cf(inner)))
+    return out
+
+
 def _gen_cases(tier):
     out = []
     d0 = 2
@@ -411,6 +441,7 @@ def _gen_cases(tier):
             out.append((f"lone:U+{ord(c):04X}:{kind}:between", row(mi("x"), tkn(), mn("3"))))
             out.append((f"lone:U+{ord(c):04X}:{kind}:numerator", el("mfrac", tkn(), mn("2"))))
             out.append((f"lone:U+{ord(c):04X}:{kind}:exponent", el("msup", mi("x"), tkn())))
+    out += merge_cases()
     # level 1: one deviation at every position
     dev_shapes = terms.spine_shapes(1) if tier == "quick" else terms.spine_shapes(2)
     for sh in dev_shapes:
